@@ -209,6 +209,8 @@ func (r *runner) run(backend string, nameComps []string, leadingSep bool, sep, k
 		dest = filepath.Join(root, "dest") + "/"
 	case "rel":
 		dest = fmt.Sprintf("reldest%d", r.id)
+	case "dot":
+		dest = "."
 	case "dotdot":
 		dest = ".."
 	case "dotdot2":
@@ -296,6 +298,8 @@ func (r *runner) run(backend string, nameComps []string, leadingSep bool, sep, k
 		switch destShape {
 		case "rel":
 			region = "cwd/lvl1/lvl2/" + dest
+		case "dot":
+			region = "cwd/lvl1/lvl2"
 		case "dotdot":
 			region = "cwd/lvl1"
 		case "dotdot2":
@@ -323,7 +327,13 @@ func (r *runner) run(backend string, nameComps []string, leadingSep bool, sep, k
 		if destShape == "rel" {
 			_ = os.RemoveAll(filepath.Join(r.cwd, dest))
 		}
-		if destShape == "dotdot" || destShape == "dotdot2" {
+		if destShape == "dot" { // what was extracted into the working directory goes
+			ents, _ := os.ReadDir(r.cwd)
+			for _, en := range ents {
+				_ = os.RemoveAll(filepath.Join(r.cwd, en.Name()))
+			}
+		}
+		if destShape == "dot" || destShape == "dotdot" || destShape == "dotdot2" {
 			// restore the shared parents of the working directory
 			for _, d := range []string{filepath.Join(r.osRoot, "cwd", "lvl1"), filepath.Join(r.osRoot, "cwd")} {
 				ents, _ := os.ReadDir(d)
